@@ -161,6 +161,22 @@ def zero_biased(ver):
     return s()
 
 
+def sweep_work(shard, n, seed):
+    """seeded random classes of the score quotients in random spellings (C09's sampler): cheap breadth"""
+    import random
+    from . import c09
+    part = runner.Part(PID)
+    rng = random.Random(runner.mix(seed, 11, shard))
+    for ver in spec.VKEYS:
+        for _ in range(n):
+            v = c09._rand_class(rng, ver)
+            part.check("json", check_json, {"ver": ver, "s": v})
+            part.evaluations += 1
+            part.nontrivial_count += 1
+            part.classes["sweep:v" + ver] += 1
+    return part
+
+
 def hyp_part(n_examples, shard):
     from hypothesis import given, strategies as st
     part = runner.Part(PID)
@@ -193,10 +209,13 @@ def run(tier, t0):
         part.count(None, classes=("covering",))
         part.check("json", check_json, {"ver": ver, "s": s})
     part.merge(runner.hyp_shards("vf.props.c11", "hyp_part", 4800 if tier == "quick" else 160000))
+    for p in runner.parallel("vf.props.c11", "sweep_work", [(sh, 4000 if tier == "quick" else 60000, runner.SEED) for sh in range(runner.NPROC)]):
+        part.merge(p)
     rule = ("accepted vectors (2/3 uniform, 1/3 biased to zero scores: v2 TD:N or no impact with temporal/environmental "
             "metrics, v3 zero (modified) impact, v4 no impact) x all four (sort, minimal) combinations inside each case; "
-            "covering set of every (metric, value). non-trivial = at least one optional metric defined; distinct by hash")
+            "covering set of every (metric, value); sweep of seeded random quotient classes in random spellings (C09's "
+            "sampler). non-trivial = at least one optional metric defined; distinct by hash (sweep classes counted)")
     return runner.finish(part, tier, t0, rule,
                          ["value names: upper-snake names of the FIRST schemas; v4 field names pinned from the pinned commit (the statement does not fix them, the existing tests do)",
                           "a v2 score that is undefined constrains nothing; severity strings compared case-insensitively"],
-                         required=("covering", "v2", "v3", "v4", "zero-score-in-optional-slot", "explicit-ND", "modified-defined"))
+                         required=("covering", "v2", "v3", "v4", "zero-score-in-optional-slot", "explicit-ND", "modified-defined", "sweep:v2", "sweep:v3", "sweep:v4"))
